@@ -32,6 +32,32 @@ def cases(ctx):
         vals = [1 if rng.random() < p else 0 for _ in range(h * w)]
         yield {"shape": [h, w], "vals": vals, "layout": rng.choice(LAYOUTS), "dtype": rng.choice(["bool", "bool", "uint8", "int32"]),
                "all": False}
+    # solid blocks with a few one-pixel holes: the pockets between the loops that form around the holes erode one or two pixels
+    # per pass, so these need more passes than either side is long (any cap on the number of passes shows here)
+    for i in range(80 if ctx.tier == "quick" else 800):
+        h, w = rng.randint(5, 14), rng.randint(8, 22)
+        img = np.ones((h, w), int)
+        for _ in range(rng.randint(2, 9)):
+            img[rng.randrange(h), rng.randrange(w)] = 0
+        if rng.random() < 0.4:
+            img = np.pad(img, rng.randint(1, 3))
+        yield {"shape": list(img.shape), "vals": [int(v) for v in img.reshape(-1)], "layout": "C", "dtype": "bool", "all": False}
+    # ... such images are rare among random ones (about 1 in 600): the slowest found by tools/find_slow_thinning.py (passes needed
+    # up to 1.5 x the shorter side) are replayed with a random symmetry and padding
+    import json, os
+    slow = json.load(open(os.path.join(os.path.dirname(os.path.abspath(__file__)), "..", "..", "data", "slow_thinning.json")))
+    for k, (npass, side, rows) in enumerate(slow if ctx.tier == "thorough" else slow[:24]):
+        img = np.array(rows, int)
+        t = rng.randrange(8)
+        if t & 1:
+            img = img[::-1]
+        if t & 2:
+            img = img[:, ::-1]
+        if t & 4:
+            img = img.T
+        img = np.pad(img, rng.randint(0, 2))
+        yield {"shape": list(img.shape), "vals": [int(v) for v in img.reshape(-1)], "layout": rng.choice(LAYOUTS),
+               "dtype": "bool", "all": False}
 
 
 def components_holes(img, fg8):
